@@ -85,23 +85,42 @@ class DeflateDecompressor(SimpleGzipDecompressor):
     def __init__(self):
         super().__init__()
         self.decompressobj = None
+        self._header = b''
 
     def decompress(self, value):
         if not self.decompressobj:
-            try:
+            # The zlib header is 2 bytes which may arrive one at a time.
+            value = self._header + value
+
+            if len(value) < 2:
+                self._header = value
+                return b''
+
+            self._header = b''
+
+            if self.is_zlib_header(value[:2]):
                 self.decompressobj = zlib.decompressobj()
-                return self.decompressobj.decompress(value)
-            except zlib.error:
+            else:
                 self.decompressobj = zlib.decompressobj(-zlib.MAX_WBITS)
-                return self.decompressobj.decompress(value)
 
         return self.decompressobj.decompress(value)
 
     def flush(self):
+        if not self.decompressobj and self._header:
+            self.decompressobj = zlib.decompressobj(-zlib.MAX_WBITS)
+            self.decompressobj.decompress(self._header)
+            self._header = b''
+
         if self.decompressobj:
             return super().flush()
         else:
             return b''
+
+    @classmethod
+    def is_zlib_header(cls, data):
+        '''Return whether the 2 bytes are a zlib (RFC 1950) header.'''
+        return data[0] & 0x0f == 8 and data[0] >> 4 <= 7 \
+            and (data[0] << 8 | data[1]) % 31 == 0
 
 
 def gzip_uncompress(data, truncated=False):
